@@ -146,7 +146,13 @@ def atom_text(n):
         return x.n
     if x.k == 'MemberExpr':
         b = x.child('base')
-        return (atom_text(b) + ('->' if x.arrow else '.') if b is not None and b.k != 'CXXThisExpr' else '') + x.n
+        arrow = x.arrow
+        while b is not None and b.k == 'MemberExpr' and not b.n:
+            arrow = b.arrow
+            b = b.child('base')
+        if not x.n:
+            return atom_text(b)
+        return (atom_text(b) + ('->' if arrow else '.') if b is not None and b.k != 'CXXThisExpr' else '') + x.n
     if x.cv is not None:
         return str(x.cv)
     if x.fv is not None:
